@@ -1260,10 +1260,11 @@ void amount_t::parse_conversion(const string& larger_str,
   smaller.parse(smaller_str, PARSE_NO_REDUCE);
 
   // The chain of ever smaller units below `smaller' must not lead back to
-  // `larger', or reducing an amount would never end
+  // `larger', or reducing an amount would never end.  The links are kept in
+  // the base commodity, which an annotated commodity shares with its referent.
   if (larger.has_commodity())
     for (const commodity_t * comm = &smaller.commodity(); ; ) {
-      if (*comm == larger.commodity())
+      if (comm->referent() == larger.commodity().referent())
         throw_(amount_error,
                _f("Commodity %1% cannot be converted into itself")
                % larger.commodity().symbol());
